@@ -24,7 +24,7 @@ pub fn def() -> CheckDef {
     CheckDef {
         id: "C25",
         level: "exploration",
-        rule: "two template grammars (A: extern tokens, lifetime + type parameter, two grammar parameters, generic macro, repetitions, precedence-annotated nonterminal, @L/@R, =>? action, anonymous symbol; B: built-in lexer with regex terminals) whose user identifiers are slots (nonterminals, macro name, macro parameter, type parameter, grammar parameters, bindings) x renamings: (1) each slot <- each name of the adversarial pool (internally derived names with the `__` prefix, names used unprefixed inside generated expansions such as `v` `e` `error` `<Name><level>`, names of generated items), (2) every ordered pair of distinct slots <- every ordered pair of the unprefixed names, (3) rotations renaming all slots at once; both code generators. Oracle: differential against the conventional naming: same LALRPOP verdict, same rustc verdict, same result and side-effect log on every accepted input <= n of the reference and a set of rejected ones. evaluations = compiled parses; distinct_nontrivial = renamed variants compared with the reference",
+        rule: "two template grammars (A: extern tokens, lifetime + type parameter, two grammar parameters, generic macro, repetitions, two precedence-annotated nonterminals, @L/@R, =>? action, anonymous symbol; B: built-in lexer with regex terminals) whose user identifiers are slots (nonterminals, macro name, macro parameter, type parameter, grammar parameters, bindings) x renamings: (1) each slot <- each name of the adversarial pool (internally derived names with the `__` prefix, names used unprefixed inside generated expansions such as `v` `e` `error` `<Name><level>`, names of generated items), (2) every ordered pair of distinct slots <- every ordered pair of the unprefixed names, (3) rotations renaming all slots at once; both code generators. Oracle: differential against the conventional naming: same LALRPOP verdict, same rustc verdict, same result and side-effect log on every accepted input <= n of the reference and a set of rejected ones. evaluations = compiled parses; distinct_nontrivial = renamed variants compared with the reference",
         evaluations: "parses",
         nontrivial: "variants_compared",
         mc: None,
@@ -86,7 +86,10 @@ pub {S}: V = {
     "d" "d" <{Inner}>,
 };
 {Inner}: V = {
+    #[precedence(level="0")]
     "f" <{E}> "f",
+    #[precedence(level="1")] #[assoc(side="left")]
+    <{b4}:{Inner}> "f" "f" <{b5}:{Inner}> => V::n(6, vec![{b4}, {b5}]),
 };
 "####,
     slots: &[
@@ -145,6 +148,11 @@ fn pool() -> Vec<(&'static str, bool)> {
         ("Expr0", false),
         ("Expr1", false),
         ("Expr2", false),
+        // hex-escaped forms of derived nonterminal names (`Tail?`, `"a"+`) as the recursive-ascent
+        // generator spells them in its nonterminal enum
+        ("Tail_3f", false),
+        ("_22a_22_2b", false),
+        ("Inner0", false),
         ("StartParser", false),
         ("Parser", false),
         ("Token", false),
